@@ -80,6 +80,20 @@ Theorem C09_order : forall (V F : Type) (g : graph F) (I : impl V F)
 Proof. exact seq_from_received. Qed.
 Print Assumptions C09_order.
 
+(* the error code a kernel reports (NaN acceptance probability, NUTS "maximum tree depth", a user kernel's own
+   codes) goes into the transition infos only: the loop that also carries the infos computes exactly the states
+   of [seq_from], i.e. the successor starts from the state its predecessor returned whatever code it reported *)
+Theorem C09_order_error_code : forall (V F : Type) (g : graph F) (I : impl V F)
+  (internal : nat -> mstate V) (orc : nat -> pst V -> proposal V) (codes : nat -> pst V -> nat)
+  (ks : list kernel) (i : nat) (st : pst V),
+  seq_from_c I g internal orc codes i ks st =
+    match seq_from I g internal orc i ks st with
+    | None => None
+    | Some (stf, tr) => Some (stf, tr, map (fun js => codes (i + fst js) (snd js)) (combine (seq 0 (length tr)) tr))
+    end.
+Proof. exact seq_from_c_states. Qed.
+Print Assumptions C09_order_error_code.
+
 (* the iteration is the left fold of the kernels *)
 Theorem C09_order_fold : forall (V F : Type) (g : graph F) (I : impl V F)
   (internal : nat -> mstate V) (orc : nat -> pst V -> proposal V) (ks1 ks2 : list kernel) (i : nat) (st : pst V),
